@@ -152,7 +152,7 @@ func checkIsDestWrittenOnce(c *Ctx) {
 					continue
 				}
 				n++
-				_, fresh := fa.X.(*ssa.Alloc)
+				fresh := freshObject(fa.X, 0)
 				fn := core.FuncName(f)
 				zero := false
 				if k, isK := st.Val.(*ssa.Const); isK && k.Value != nil && k.Value.ExactString() == "false" {
@@ -163,6 +163,31 @@ func checkIsDestWrittenOnce(c *Ctx) {
 		}
 	}
 	R.Floor("R04.5:isdest-stores", n, 4)
+}
+
+// freshObject: v is an object this function has just created – an allocation, or what a constructor (a module function whose every
+// return hands out an object it created) returned.
+func freshObject(v ssa.Value, depth int) bool {
+	switch x := v.(type) {
+	case *ssa.Alloc:
+		return true
+	case *ssa.Call:
+		h := x.Common().StaticCallee()
+		if h == nil || !core.InModule(h) || len(h.Blocks) == 0 || depth > 2 {
+			return false
+		}
+		n := 0
+		for _, b := range h.Blocks {
+			if ret, ok := b.Instrs[len(b.Instrs)-1].(*ssa.Return); ok && b.Comment != "recover" {
+				if len(ret.Results) == 0 || !freshObject(ret.Results[0], depth+1) {
+					return false
+				}
+				n++
+			}
+		}
+		return n > 0
+	}
+	return false
 }
 
 // checkUnreachablePredicate: the parser's "destination unreachable" test looks at the ICMP TYPE only. For UDP any ICMP error
